@@ -18,12 +18,13 @@ type initCase struct {
 	Arg       string   `json:"arg"`        // as given (relative), or joined to the absolute path of w when Abs
 	Abs       bool     `json:"abs"`        //
 	Expect    []string `json:"expect"`     // acceptable locations of the new file, relative to w
-	Present   bool     `json:"present"`    // the target exists before the run
+	Present   bool     `json:"present"`    // a target exists before the run
+	PresentAt []string `json:"present_at"` // which of the acceptable locations exist before the run (content ORIGINAL)
 	ArgBefore bool     `json:"arg_before"` // `task <path> --init` instead of `task --init <path>`
 }
 
 func (c *initCase) key() string {
-	return fmt.Sprintf("%s|%q|abs=%v|present=%v|before=%v", c.Kind, c.Arg, c.Abs, c.Present, c.ArgBefore)
+	return fmt.Sprintf("%s|%q|abs=%v|present=%v|before=%v", c.Kind, c.Arg, c.Abs, c.PresentAt, c.ArgBefore)
 }
 
 var initDirs = []string{"sub", "sub/deep", "dir with space", "dïr", "d=r"}
@@ -31,8 +32,17 @@ var initDirs = []string{"sub", "sub/deep", "dir with space", "dïr", "d=r"}
 func initCases() []*initCase {
 	var out []*initCase
 	add := func(kind, arg string, abs bool, expect ...string) {
-		for _, present := range []bool{false, true} {
-			out = append(out, &initCase{Shape: arg, Kind: kind, HasArg: kind != "none", Arg: arg, Abs: abs, Expect: expect, Present: present})
+		out = append(out, &initCase{Shape: arg, Kind: kind, HasArg: kind != "none", Arg: arg, Abs: abs, Expect: expect})
+		// the target exists. For an extension-only argument there are two
+		// candidates (Taskfile.<ext>, the expansion, and the literal name): each
+		// of them alone and both together, because "never overwrite" holds for
+		// whatever file the run ends up writing to
+		sets := [][]string{expect[:1]}
+		if len(expect) > 1 {
+			sets = append(sets, expect[1:2], expect)
+		}
+		for _, at := range sets {
+			out = append(out, &initCase{Shape: arg, Kind: kind, HasArg: kind != "none", Arg: arg, Abs: abs, Expect: expect, Present: true, PresentAt: at})
 		}
 	}
 	add("none", "", false, "Taskfile.yml")
@@ -60,9 +70,8 @@ func initCases() []*initCase {
 		if f == "sub" {
 			exp, kind = "sub/Taskfile.yml", "dir"
 		}
-		for _, present := range []bool{false, true} {
-			out = append(out, &initCase{Shape: f, Kind: kind, HasArg: true, Arg: f, Expect: []string{exp}, Present: present, ArgBefore: true})
-		}
+		out = append(out, &initCase{Shape: f, Kind: kind, HasArg: true, Arg: f, Expect: []string{exp}, ArgBefore: true})
+		out = append(out, &initCase{Shape: f, Kind: kind, HasArg: true, Arg: f, Expect: []string{exp}, Present: true, PresentAt: []string{exp}, ArgBefore: true})
 	}
 	// seeded random file names
 	r := h.Rng(19, 3)
@@ -86,10 +95,8 @@ func runInit(id string, e *env, c *acase, proj string, part *h.Partial) {
 	for _, d := range initDirs {
 		files["w/"+d+"/keep.txt"] = "keep\n"
 	}
-	if ic.Present {
-		for _, x := range ic.Expect {
-			files["w/"+filepath.ToSlash(filepath.Clean(x))] = "ORIGINAL\n"
-		}
+	for _, x := range ic.PresentAt {
+		files["w/"+filepath.ToSlash(filepath.Clean(x))] = "ORIGINAL\n"
 	}
 	if err := h.WriteTree(proj, files); err != nil {
 		part.Inconc(fmt.Sprintf("init case %s: %v", ic.key(), err))
@@ -146,16 +153,21 @@ func runInit(id string, e *env, c *acase, proj string, part *h.Partial) {
 		return false
 	}
 	var vs []viol
-	desc := fmt.Sprintf("task %s (target %s): exit %d, tree changes %v", strings.Join(quoteList(args), " "), map[bool]string{true: "present", false: "absent"}[ic.Present], res.Exit, diff)
+	desc := fmt.Sprintf("task %s (existing before the run: %v): exit %d, tree changes %v", strings.Join(quoteList(args), " "), quoteList(ic.PresentAt), res.Exit, diff)
 	if len(changed) > 0 || len(removed) > 0 {
 		vs = append(vs, viol{id + " | init | an existing file was overwritten or removed", desc})
 	}
 	switch {
 	case len(added) == 0 && !ic.Present && ic.Kind != "missingdir" && len(changed) == 0:
 		vs = append(vs, viol{id + " | init | no Taskfile was created", desc})
+	case len(added) == 0 && ic.Present && len(diff) == 0 && res.Exit == 0:
+		// documented: exit code 101 "A Taskfile already exists when trying to initialize one"
+		vs = append(vs, viol{id + " | init | target exists, nothing was written, yet success was reported", desc})
 	case len(added) == 1 && added[0] == "w/Taskfile.yml" && !okPlace(added[0]):
 		vs = append(vs, viol{id + " | init | path argument ignored: the Taskfile was created as ./Taskfile.yml", desc})
-	case len(added) > 1 || (len(added) == 1 && !okPlace(added[0])) || (len(added) == 1 && ic.Present):
+	case len(added) > 1 || (len(added) == 1 && !okPlace(added[0])):
+		// (with a target present, a new file at the other acceptable place of an
+		// extension-only argument is where the path says; anything else is not)
 		vs = append(vs, viol{id + " | init kind=" + ic.Kind + " | the Taskfile was created at another place than the path names", desc})
 	case len(added) == 1 && e.defaultTaskfile != "" && h.ReadFile(filepath.Join(proj, added[0])) != e.defaultTaskfile:
 		vs = append(vs, viol{id + " | init | the created file is not the default Taskfile", desc})
